@@ -484,6 +484,11 @@ def gen_C05(rng, tier):
                 out.append(('ff %s %s %d %d' % (be, op, al, x), '%s/%s/alias%d' % (be, op, al)))
             for op in ('mulby3', 'mulby5', 'mulby13', 'frommont'):
                 out.append(('ff %s %s %d' % (be, op, x), '%s/%s' % (be, op)))
+    # Butterfly with both pointers equal (degenerate: two outputs, one object): the three
+    # back-ends are compared with each other ('!': no functional model of this call)
+    for x in rng.sample(vals, 3):
+        for be in ('asm', 'noadx', 'gen'):
+            out.append(('!ff %s butterflyalias %d' % (be, x), 'butterfly/a==b/' + be))
     for x in vals:
         out.append(('ff asm halve %d' % x, 'halve'))
         out.append(('ff asm tomont %d' % x, 'tomont'))
